@@ -106,3 +106,22 @@ def gt_rejects_local_of_another_version(violation, m):
         return False
     v, c = R.norm(inp["v"]), R.norm(inp["c"])
     return c["local"] is not None and R.same_release(c, v) and R.admits(">", v, False, c)
+
+@matcher("numeric_component_beyond_int_str_limit")
+def _beyond_int_limit(violation, m):
+    """C02/C11/C12: the witness is a version with one numeric component longer than the running interpreter's
+    ``sys.get_int_max_str_digits()`` (CPython >= 3.11; 0 means unlimited, then nothing matches)."""
+    import sys
+
+    lim = getattr(sys, "get_int_max_str_digits", lambda: 0)()
+    inp = violation.get("input") or {}
+    if not lim:
+        return False
+    if isinstance(inp.get("digits"), int):
+        return inp["digits"] > lim
+    s = inp.get("s")
+    if isinstance(s, str):
+        import re
+
+        return any(len(r) > lim for r in re.findall(r"[0-9]+", s))
+    return False
